@@ -520,7 +520,7 @@ def emission_units(world):
                 return sx
             fr.vars.update({"s": s, "txt": Tok("txt"), "ts": Tok("ts"), "subject": Tok("subject"), "labels": Tok("labels"),
                             "parse_prod": E, "scorer": ModVal("scorer", {"score_final": Builtin("score_final", score_final)})})
-            it.exec(loop, fr)
+            it.exec_fragment(loop, fr)
             return (fr.yielded, calls, fr)
 
         def ens(it, w, a, r):
@@ -547,8 +547,11 @@ def emission_units(world):
             else:
                 out.append(("table-unchanged-when-nothing-is-emitted", ["C14"], z3.And(E.dom == E.dom0, E.val == E.val0)))
             return out
-        return FuncUnit("ctparse._ctparse.emission[%s]" % ("RegexMatch" if is_regex else "value"), ["ctparse._ctparse"],
-                        ["C14", "C10", "C15"], setup, call, ens, check_frame=False, prop_map={"safety": ["C14"]})
+        u = FuncUnit("ctparse._ctparse.emission[%s]" % ("RegexMatch" if is_regex else "value"), ["ctparse._ctparse"],
+                     ["C14", "C10", "C15"], setup, call, ens, check_frame=False, prop_map={"safety": ["C14"]})
+        # a fragment executed in a frame the unit builds: counts only with the behavioural replay (h_emission)
+        u.shape_only_clauses = type("All", (), {"__contains__": lambda self, x: True})()
+        return u
     return [mk(False), mk(True)]
 
 
